@@ -1,15 +1,19 @@
 #!/bin/sh
 # usage: scratch_env.sh <dir>
-# Creates <dir>/repo (a git worktree of /repo's HEAD) and <dir>/verif (a copy of the harness whose path dependencies
-# point at <dir>/repo), so that seeded changes can be tried without touching /repo or /verif. Remove with
+# Creates (or refreshes) <dir>/repo (a git worktree of /repo's HEAD) and <dir>/verif (a copy of the harness as it is now
+# whose path dependencies point at <dir>/repo), so that seeded changes can be tried without touching /repo or /verif.
+# The build output of an earlier use is kept. Remove with
 #   git -C /repo worktree remove --force <dir>/repo && rm -rf <dir>
 set -e
 D="$1"
 [ -n "$D" ] || { echo "usage: scratch_env.sh <dir>" >&2; exit 2; }
 mkdir -p "$D"
 [ -d "$D/repo" ] || git -C /repo worktree add --detach "$D/repo" HEAD >/dev/null 2>&1
-rm -rf "$D/verif"
+# bring an existing worktree to /repo's current HEAD
+git -C "$D/repo" checkout -q -- .
+git -C "$D/repo" checkout -q --detach "$(git -C /repo rev-parse HEAD)"
 mkdir -p "$D/verif/sim" "$D/verif/evidence" "$D/verif/replays"
+rm -rf "$D/verif/sim/src" "$D/verif/sim/.cargo"
 cp /verif/check /verif/known_findings.json "$D/verif/"
 cp -r /verif/sim/src /verif/sim/Cargo.toml /verif/sim/Cargo.lock /verif/sim/.cargo "$D/verif/sim/"
 sed -i "s#/repo/#$D/repo/#g" "$D/verif/sim/Cargo.toml"
